@@ -199,6 +199,24 @@ def run(ck):
     ok = bool(st) and bool(qi) and all(g.dominated(q, set(g.sites_of_nodes(st))) for q in g.sites_of_nodes(qi))
     ck.ob("C02-O6", sitestr(inst), ok, "the logger is published before the Qt handler is installed" if ok else "the Qt handler is installed before/without publishing the logger",
           key="Logger::installMessageHandler|publish-order")
+    ck.rule("C02-O13", "a logger becomes Qt's message handler only once its pipeline is built: in every Logger method that both fills the pipeline (QtLogger::configure(this, ...)) and calls "
+                       "installMessageHandler(), the installation comes after the configuration on every path (the builder methods change the handler list without the logger's lock; a "
+                       "message of another thread meanwhile runs a half-built pipeline and misses the sinks created by the same call)")
+    n13 = 0
+    for f_ in sorted((x for x in F.fns.values() if x.body is not None and in_lib(x.file) and strip_tmpl(x.cls or "") == "QtLogger::Logger"), key=lambda x: x.sig):
+        ff_ = F.flat(f_)
+        cfgs_ = [c_ for c_ in ff_.calls("QtLogger::configure")]
+        inst_ = [c_ for c_ in ff_.calls("QtLogger::Logger::installMessageHandler")]
+        if not cfgs_ or not inst_:
+            continue
+        n13 += 1
+        g_ = Graph(ff_)
+        cs_ = set(g_.sites_of_nodes(cfgs_))
+        ok_ = all(not any(g_.can_reach(i_, c_) for c_ in cs_) for i_ in g_.sites_of_nodes(inst_))
+        ck.ob("C02-O13", sitestr(ff_, inst_[0]), ok_, "%s: the pipeline is configured, then the message handler is installed" % f_.name.split("QtLogger::")[-1] if ok_ else
+              "%s installs the message handler before the pipeline is built: messages of other threads are accepted by a logger whose handler list is being appended to without the lock, "
+              "and miss the sinks that the same call creates a moment later" % f_.name.split("QtLogger::")[-1], key="install-before-configure|%s" % f_.sig.split("QtLogger::")[-1][:60])
+    ck.require(n13 >= 2, "only %d Logger methods configure and install (2 confirmed by hand)" % n13)
     ck.rule("C02-O9", "handler code keeps no mutable static state: every static variable written by code reachable from a handler's process/format/filter/send/attributes/flush is a cache of constants "
                       "(the pipeline's lock covers the pipeline's own objects, not what all pipelines share)")
     from rules.oth import shared_static_state
